@@ -382,8 +382,65 @@ def c_exec(stmt, env, cu):
                 raise CEvalError(f"store to subscript {idx} of {'array of ' + str(len(base)) if isinstance(base, list) else 'non-array'}")
             base[idx] = c_eval(inner[1], env, cu)
             return env
+    if k == "CompoundAssignOperator":
+        op_ = (stmt.get("opcode") or "").rstrip("=")
+        py = {"+": lambda a, b: a + b, "-": lambda a, b: a - b, "*": lambda a, b: a * b, "|": lambda a, b: a | b, "&": lambda a, b: a & b, "^": lambda a, b: a ^ b,
+              "<<": lambda a, b: a << b, ">>": lambda a, b: a >> b}.get(op_)
+        if py is None:
+            raise CEvalError(f"compound assignment {stmt.get('opcode')}")
+        tgt = inner[0]
+        while tgt.get("kind") in ("ParenExpr",):
+            tgt = tgt["inner"][-1]
+        rhs = c_eval(inner[1], env, cu)
+        if tgt.get("kind") == "DeclRefExpr":
+            nm = tgt["referencedDecl"]["name"]
+            env[nm] = py(env[nm], rhs)
+            return env
+        if tgt.get("kind") == "MemberExpr":
+            env[tgt["name"]] = py(env[tgt["name"]], rhs)
+            return env
+        if tgt.get("kind") == "ArraySubscriptExpr":
+            base = _c_array(tgt["inner"][0], env)
+            idx = c_eval(tgt["inner"][1], env, cu)
+            if not isinstance(base, list) or not 0 <= idx < len(base):
+                raise CEvalError(f"compound store to subscript {idx}")
+            base[idx] = py(base[idx], rhs)
+            return env
+        raise CEvalError("compound assignment target")
+    if k == "WhileStmt":
+        cond, body = inner[-2], inner[-1]
+        steps = 0
+        while c_eval(cond, env, cu):
+            steps += 1
+            if steps > 100000:
+                raise CEvalError("loop does not terminate within 100000 steps")
+            try:
+                c_exec(body, env, cu)
+            except _CBreak:
+                break
+            except _CContinue:
+                pass
+        return env
     if k == "CallExpr":
         callee = [x.get("referencedDecl", {}).get("name") for x in cu.walk(inner[0]) if x.get("kind") == "DeclRefExpr"]
+        if callee and callee[0] == "qsort" and len(inner) == 5:
+            # qsort(base, n, size, cmp): the comparator is one of this unit's functions of the shape `T aa = *(T*)a; T bb = *(T*)b; return <expr>;`
+            # - its return expression is evaluated on the two element values
+            import functools as _ft
+
+            base = _c_array(inner[1], env)
+            n_ = c_eval(inner[2], env, cu)
+            cmp_name = [x["referencedDecl"]["name"] for x in cu.walk(inner[4]) if x.get("kind") == "DeclRefExpr" and x.get("referencedDecl", {}).get("kind") == "FunctionDecl"]
+            fn = cu.functions.get(cmp_name[0]) if cmp_name else None
+            if not isinstance(base, list) or fn is None or n_ != len(base):
+                raise CEvalError("qsort: array / comparator not resolvable")
+            cbody = [x for x in fn.get("inner", []) if x.get("kind") == "CompoundStmt"][0]
+            locs = [d_["name"] for s_ in cbody.get("inner", []) if s_.get("kind") == "DeclStmt" for d_ in s_.get("inner", []) if d_.get("kind") == "VarDecl"]
+            rets = [s_ for s_ in cbody.get("inner", []) if s_.get("kind") == "ReturnStmt"]
+            if len(locs) != 2 or len(rets) != 1:
+                raise CEvalError("qsort: comparator shape not recognised")
+            base.sort(key=_ft.cmp_to_key(lambda x_, y_: c_eval(rets[0]["inner"][0], {locs[0]: x_, locs[1]: y_}, cu)))
+            return env
         if callee and callee[0] == "memset" and len(inner) == 4:
             base = _c_array(inner[1], env)
             if isinstance(base, list):
